@@ -1,7 +1,7 @@
 """C04 - genomic-model predictions are linear, label-preserving and self-consistent; fitted rrBLUP solves its own equations.
 
 Two case families: ``model`` (a model with given coefficients on one population presented in three input forms, its taxon
-permutation, a marker partition and a call history on the living model object) and ``fit`` (rrBLUP training sets through every
+permutation, a marker partition, a call history on the living model object and rounds of coefficient updates on it and on copies of it) and ``fit`` (rrBLUP training sets through every
 entry point; a recording wrapper on the module-level solver supplies the ridge parameter)."""
 import numpy
 
@@ -25,7 +25,8 @@ CLAUSES = {
     "C04.stats.bulmer": 4000,      # var_A / var_a, NaN exactly when the genic variance is zero
     "C04.stats.score": 1000,       # R^2
     "C04.stats.counts": 20000,     # facount ... dapoly, nafixed, napoly (exact)
-    "C04.history": 300000,         # results stay valid while the model lives on: unchanged by later calls, no aliasing, updates followed
+    "C04.history": 300000,         # results stay valid while the model lives on: unchanged by later calls, no aliasing, caller overwriting them harmless
+    "C04.history.update": 200000,  # coefficients replaced (any subset, setters / in place, repeatedly, on the model or a copy): every entry point follows
     "C04.rrblup.entry": 100,      # fit(objects) == fit_numpy(raw arrays held by the objects), record by record
     "C04.rrblup.trace": 100,       # the model's effects are the solver's output for the training data
     "C04.rrblup.intercept": 150,
@@ -53,7 +54,12 @@ RULE = ("model cases: seeded class-based genotype arrays (1-120 taxa incl. 49/98
         "the *_numpy entry points (gebv/gegv/predict/var_A/var_G/var_a/bulmer/score) called 5-6 times with same-shaped inputs of "
         "different content (one buffer rewritten in place, permutation, allele complement, other dtype), another shape, the first "
         "input again, all ~150 raw outputs of the case kept and re-judged at the end, aliasing tests, caller overwriting the "
-        "outputs, coefficients replaced (setters / in place) and queried again.  fit cases: 8-120 records x 2-60 markers "
+        "outputs; then 2-3 update rounds on the living model: a random non-empty subset of beta/u_a/u_d/u_misc replaced in random "
+        "order through the setters or in place (new effects gaussian, small integers, with exact zeros, all negative, all zero), in 30% "
+        "of the rounds after a copy (copy.copy/copy.deepcopy/.copy()/.deepcopy()) was taken and either the copy or the original "
+        "goes on living, and after every round all ~30 entry points (gebv/gegv/predict/score and their _numpy forms, var_A/var_G/"
+        "var_a/bulmer and _numpy forms, the twelve allele tables) judged against the coefficients the model now holds, the model left "
+        "behind against the ones it was left with.  fit cases: 8-120 records x 2-60 markers "
         "(n > p, n barely > p, n <= p; monomorphic and duplicated columns, rare alleles, {-1,0,1} coding) x responses (signal+noise, "
         "pure noise, near-noiseless, constant trait, 1e6 offset, 1e-3 and 1e4 scale), 1-3 traits; entry points fit_numpy, fit(objects), fit(array, matrix), "
         "fit(matrix, array); object responses built by from_numpy or the constructor (location 0/scale 1, arbitrary); record labels "
@@ -76,6 +82,8 @@ ASSUME += [
     "an output handed to the caller belongs to the caller: it keeps its value while the model is used further and shares no memory "
     "with the model's coefficient arrays, with the input or with another output (label arrays are exempt: they are passed by reference)",
     "a model whose coefficient arrays are replaced through the setters or edited in place is the model with the new coefficients",
+    "a copy (shallow or deep) of a model is a model with the same coefficients; updating one of the two through the setters, or in "
+    "place after a deep copy, leaves the other one's answers alone (a shallow copy edited in place is not judged: it may share arrays)",
 ]
 TRUSTED = ["pbmon.oracle.linmodel", "numpy.einsum"]
 
@@ -1090,42 +1098,122 @@ def case_model(ctx, c):
         ctx.raised("fresh prediction after results were overwritten", ex)
     ctx.check("C04.history", fresh_ok, defsite(model, "gebv_numpy"),
               "model, inputs and fresh predictions unaffected when the caller overwrites earlier results", icls_in, witness=wit0, coords=coords)
-    # (4) coefficients replaced on the living model: every later answer follows the current coefficients
-    how = str(g.choice(["setter", "in place"]))
-    if not (model.u_a.flags.writeable and model.beta.flags.writeable):
-        how = "setter"      # the caller cannot edit read-only coefficient arrays in place
-    u_new = gen_effects(g, str(g.choice(["gauss", "ints", "gauss-zeros", "negative"])), p, t, fixed)
-    b_new = g.normal(size=(q, t)) * 5
-    try:
-        if how == "setter" and rcls != "native":
+    # (4) coefficients replaced on the living model - or on a copy of it that goes on living - again and again: after every
+    # round each entry point answers for the coefficients the model holds *now*.  A round replaces a random non-empty subset of
+    # beta / u_a / u_d / u_misc, in random order, through the setters or by editing the arrays in place; every entry point was
+    # used before each round (above / by the previous round), so an answer put together from remembered pieces shows.
+    import copy as _copy
+    cur = {"beta": beta, "u_a": u_a, "u_d": u_d_eff, "u_misc": u_misc}
+    live = model
+    lineage = "constructed model"
+    pnames = ["beta", "u_a"] + (["u_d"] if kind == "AD" else []) + (["u_misc"] if has_misc else [])
+    ZDn = Zf if kind == "A" else ZD
+
+    def judge_all(obj, co, rel, icls, wx):
+        b, ua, ud, um = co["beta"], co["u_a"], co["u_d"], co["u_misc"]
+        b0n = O.intercept(b)
+        ebn = O.marker_part(dos, ua)
+        egn = ebn if kind == "A" else O.marker_part(dos, ua, het, ud)
+        Sn = O.value_scale(b, ua, ud, ploidy); SXn = O.value_scale(b, ua, ud, ploidy, X); Sn2 = Sn * Sn
+        miscn = Zmisc @ um if has_misc else 0.0
+        mx = float(numpy.abs(miscn).max()) if has_misc else 0.0
+        tn = O.allele_tables(ua, count, n, ploidy)
+        van, vzn = O.genic_var(ua, count, n, ploidy)
+        vAn, vGn = O.popvar(ebn), O.popvar(egn)
+        with numpy.errstate(all="ignore"):
+            buln = numpy.where(vzn, numpy.nan, vAn / numpy.where(vzn, 1.0, van))
+            btn = numpy.where(vzn, 1.0, O.tol(Sn2) * (1.0 + numpy.abs(buln)) / numpy.where(vzn, 1.0, van))
+        F = pg if g.random() < 0.5 else ug
+        pfreq = count / float(tot)
+        predn = X @ b + egn
+        calls = [("gebv_numpy", lambda: obj.gebv_numpy(arr.copy()), ebn, O.tol(Sn)),
+                 ("gegv_numpy", lambda: obj.gegv_numpy(arr.copy() if kind == "A" else ZD.copy()), egn, O.tol(Sn)),
+                 ("predict_numpy", lambda: obj.predict_numpy(X.copy(), numpy.concatenate([Zmisc, ZDn], axis=1)), predn + miscn, O.tol(SXn + mx)),
+                 ("gebv", lambda: obj.gebv(F).unscale(), ebn + b0n[None, :], O.tol(Sn)),
+                 ("gegv", lambda: obj.gegv(F).unscale(), egn + b0n[None, :], O.tol(Sn)),
+                 ("var_A", lambda: obj.var_A(F), vAn, O.tol(Sn2)), ("var_G", lambda: obj.var_G(F), vGn, O.tol(Sn2)),
+                 ("var_a", lambda: obj.var_a(F), van, O.tol(Sn2)), ("bulmer", lambda: obj.bulmer(F), buln, btn),
+                 ("var_A_numpy", lambda: obj.var_A_numpy(arr.copy()), vAn, O.tol(Sn2)),
+                 ("var_G_numpy", lambda: obj.var_G_numpy(arr.copy() if kind == "A" else ZD.copy()), vGn, O.tol(Sn2)),
+                 ("var_a_numpy", lambda: obj.var_a_numpy(pfreq, ploidy), van, O.tol(Sn2)),
+                 ("bulmer_numpy", lambda: obj.bulmer_numpy(arr.copy(), pfreq, ploidy), buln, btn)]
+        if not has_misc:
+            calls.append(("predict", lambda: obj.predict(X.copy(), F).unscale(), predn, O.tol(SXn)))
+            if score_ok:
+                sse_n, sst_n = O.rsq(Y, predn)
+                with numpy.errstate(all="ignore"):
+                    r2n = 1.0 - sse_n / sst_n
+                    r2t = O.tol((float(numpy.abs(Y).max()) + SXn) ** 2 * n) * (1.0 + numpy.abs(r2n)) / sst_n
+                calls.append(("score", lambda: obj.score(Yobj, X.copy(), F), r2n, r2t))
+                calls.append(("score_numpy", lambda: obj.score_numpy(numpy.array(Y), X.copy(), ZDn.copy()), r2n, r2t))
+        for nm in TABLES:
+            calls.append((nm, (lambda nm=nm: getattr(obj, nm)(F)), tn[nm], O.tol(1.0) if nm in ("fafreq", "dafreq") else None))
+        for nm, fn, e, tl in calls:
+            site = defsite(obj, nm)
             try:
-                model.u_a = R(u_new); model.beta = R(b_new)
+                got = fn()
+            except Exception as ex:
+                ctx.raised("%s after coefficient update" % site, ex); continue
+            ok = exact(got, e) if tl is None else fclose(got, e, tl)[0]
+            ctx.check("C04.history.update", ok, site, rel, icls,
+                      witness=dict(wit0, output=nm, got=brief(got), expected=brief(e), **wx), coords=coords)
+
+    def assign(obj, nm, val, how):
+        if how == "in place":
+            getattr(obj, nm)[...] = val
+            return
+        if rcls != "native":
+            try:
+                setattr(obj, nm, R(val))
             except Exception as e:
-                model.u_a = u_new.copy(); model.beta = b_new.copy()   # native arrays are accepted
-                ctx.raised("%s[%s]" % (defsite(model, "u_a"), rcls), e)
-                ctx.violation("C04.returns", defsite(model, "u_a") + " setter", "accepts every in-memory representation of the same values "
+                setattr(obj, nm, val.copy())   # native arrays are accepted
+                ctx.raised("%s[%s]" % (defsite(obj, nm), rcls), e)
+                ctx.violation("C04.returns", defsite(obj, nm) + " setter", "accepts every in-memory representation of the same values "
                               "(raised %s)" % type(e).__name__, rcls, witness=dict(wit0, raised=brief(e)), coords=coords)
             ctx.ok("C04.returns")
-        elif how == "setter":
-            model.u_a = u_new.copy(); model.beta = b_new.copy()
         else:
-            model.u_a[...] = u_new; model.beta[...] = b_new
-        e_np = O.marker_part(dos, u_new)
-        e_bv = e_np + O.intercept(b_new)[None, :]
-        Sn = O.value_scale(b_new, u_new, u_d_eff, ploidy)
-        tn = O.allele_tables(u_new, count, n, ploidy)
-        van, _ = O.genic_var(u_new, count, n, ploidy)
-        got = {"gebv_numpy": model.gebv_numpy(arr.copy()), "gebv": numpy.array(model.gebv(pg).unscale()),
-               "var_A": model.var_A(ug), "var_a": model.var_a(pg), "facount": model.facount(pg), "dapoly": model.dapoly(ug)}
-        oks = {"gebv_numpy": fclose(got["gebv_numpy"], e_np, O.tol(Sn))[0], "gebv": fclose(got["gebv"], e_bv, O.tol(Sn))[0],
-               "var_A": fclose(got["var_A"], O.popvar(e_np), O.tol(Sn * Sn))[0], "var_a": fclose(got["var_a"], van, O.tol(Sn * Sn))[0],
-               "facount": exact(got["facount"], tn["facount"]), "dapoly": exact(got["dapoly"], tn["dapoly"])}
-        for nm, ok in oks.items():
-            ctx.check("C04.history", ok, defsite(model, nm), "answers follow the model's current coefficients after an update",
-                      "coefficients replaced through the %s" % ("setters" if how == "setter" else "arrays in place"),
-                      witness=dict(wit0, output=nm, got=brief(got[nm])), coords=coords)
+            setattr(obj, nm, val.copy())
+
+    nround = 2 + int(g.random() < 0.35)
+    try:
+        for rd in range(nround):
+            # now and then a copy of the model is taken first; either the copy or the original goes on living and is updated,
+            # the other one is left behind and must go on answering for the coefficients it was left with
+            behind = None
+            if g.random() < 0.3:
+                cop = str(g.choice(["copy.copy", "copy.deepcopy", "copy()", "deepcopy()"]))
+                C = {"copy.copy": lambda: _copy.copy(live), "copy.deepcopy": lambda: _copy.deepcopy(live),
+                     "copy()": lambda: live.copy(), "deepcopy()": lambda: live.deepcopy()}[cop]()
+                deep = "deep" in cop
+                old = dict(cur)
+                if g.random() < 0.5:
+                    behind = (live, "original after its copy was updated", old, deep); live = C; lineage = "copy of a model"
+                else:
+                    behind = (C, "copy after its original was updated", old, deep)
+            pick = [nm for nm in pnames if g.random() < 0.5] or [str(g.choice(pnames))]
+            pick = [pick[i] for i in g.permutation(len(pick))]
+            how = str(g.choice(["setter", "in place"]))
+            if not all(getattr(live, nm).flags.writeable for nm in pick):
+                how = "setter"      # the caller cannot edit read-only coefficient arrays in place
+            new = {}
+            for nm in pick:
+                if nm == "beta":
+                    new[nm] = g.normal(size=(q, t)) * 5
+                elif nm == "u_misc":
+                    new[nm] = g.normal(size=u_misc.shape)
+                else:
+                    new[nm] = gen_effects(g, str(g.choice(["gauss", "ints", "gauss-zeros", "negative", "zero"])), p, t, fixed)
+            for nm in pick:
+                assign(live, nm, new[nm], how)
+            cur = dict(cur, **new)
+            ucl = "coefficients replaced through the %s" % ("setters" if how == "setter" else "arrays in place")   # lineage: witness only
+            wx = {"round": rd, "replaced": list(pick), "how": how, "model_is": lineage}
+            judge_all(live, cur, "answers follow the model's current coefficients after an update", ucl, wx)
+            if behind is not None and (behind[3] or how == "setter"):   # a shallow copy may share its arrays with the original
+                judge_all(behind[0], behind[2], "answers of the model left behind are those of the coefficients it was left with",
+                          behind[1], dict(wx, copied_by=cop))
     except Exception as ex:
-        ctx.raised("prediction after coefficient update", ex)
+        ctx.raised("coefficient update on a living model", ex)
 
 
 # ---------------------------------------------------------------- fit family
